@@ -1015,8 +1015,8 @@ impl Check for C11 {
             }
         }));
         let (count, max_size) = match tier {
-            Tier::Quick => (4_000, 8 * 1024),
-            Tier::Thorough => (150_000, 200 * 1024),
+            Tier::Quick => (20_000, 8 * 1024),
+            Tier::Thorough => (400_000, 200 * 1024),
         };
         fams.push(Family::new("random_directories_and_scripts", count, false, move |i, rng| {
             // a few runs with the full 200 KiB size even in the quick tier
